@@ -145,7 +145,9 @@ pub fn base(k: usize) -> Vec<u8> {
         }
         3 => encode(&crate::scenes::scene(6), &mut Canonical, Knobs::NONE).bytes,
         4 => encode(&crate::scenes::scene(5), &mut Canonical, Knobs::NONE).bytes,
-        _ => encode(&crate::scenes::scene(3), &mut Canonical, Knobs::NONE).bytes,
+        5 => encode(&crate::scenes::scene(3), &mut Canonical, Knobs::NONE).bytes,
+        // thorough tier: every scene of the catalogue
+        k => encode(&crate::scenes::scene((k - N_BASES) % crate::scenes::N_SCENES), &mut Canonical, Knobs::NONE).bytes,
     }
 }
 
@@ -300,7 +302,7 @@ pub fn shape(name: &str, s: usize) -> String {
 
 /// X1 elements: every insertion position x every standard local name x 5 shapes
 pub fn elements(ctx: &Ctx) {
-    let bk = ctx.pick("base-document", N_BASES);
+    let bk = ctx.pick("base-document", if ctx.tier_thorough { N_BASES + crate::scenes::N_SCENES } else { N_BASES });
     let d = match doc(bk) {
         Ok(d) => d,
         Err(e) => {
@@ -369,7 +371,7 @@ const FATTRS: [&str; 6] = ["vx:type=\"Blob\"", "vx:fileOffset=\"48\"", "vx:recor
 
 /// X1 attributes: foreign attributes on every standard element
 pub fn attributes(ctx: &Ctx) {
-    let bk = ctx.pick("base-document", N_BASES);
+    let bk = ctx.pick("base-document", if ctx.tier_thorough { N_BASES + crate::scenes::N_SCENES } else { N_BASES });
     let d = match doc(bk) {
         Ok(d) => d,
         Err(e) => {
@@ -648,7 +650,7 @@ pub fn depth(ctx: &Ctx) {
 /// document, the first carrying the local name of the element that follows it (hijack shape),
 /// the second a nested box; names rotate over the list
 pub fn pairs(ctx: &Ctx) {
-    let bk = ctx.pick("base-document", N_BASES);
+    let bk = ctx.pick("base-document", if ctx.tier_thorough { N_BASES + crate::scenes::N_SCENES } else { N_BASES });
     let d = match doc(bk) {
         Ok(d) => d,
         Err(e) => {
